@@ -43,6 +43,8 @@ def carriers(g, node, depth=4):
         for e in g.fwd.get(n, ()):
             if e.kind != DATA or e.dst == OUTCOME or e.dst in seen:
                 continue
+            if not (isinstance(e.dst, tuple) and e.dst[0] == node[0]) or e.dst[1] == 0:
+                continue    # the return place mixes the error with the success value: not a carrier
             if e.op in (MOVE, "foreign", "hof"):
                 seen.add(e.dst)
                 dq.append((e.dst, d + 1))
@@ -146,8 +148,12 @@ def check_row(rep, ctx, rule, key, anchor_body, ctx_adt, variants, request_local
     if g is None:
         scope = f.closure([anchor_body.id], ctx_adt)
         g = Graph(f, scope, [anchor_body.id], ctx_adt)
-    req_parent = g.reach([(anchor_body.id, i) for i in request_locals])
-    req_nodes = {st[0] for st in req_parent}
+    # request_locals: parameter indices, or a list of groups of indices: the refusal must depend on every group
+    groups = request_locals if request_locals and isinstance(request_locals[0], (list, tuple)) else [request_locals]
+    req_sets = []
+    for grp in groups:
+        par = g.reach([(anchor_body.id, i) for i in grp if i <= anchor_body.arg_count])
+        req_sets.append({st[0] for st in par})
     good_sites = []
     results = []
     for v in variants:
@@ -160,7 +166,8 @@ def check_row(rep, ctx, rule, key, anchor_body, ctx_adt, variants, request_local
             if g.last_goal is None:
                 continue
             live.append((bid, blk))
-            if carriers(g, n) & req_nodes:
+            cs = carriers(g, n)
+            if all(cs & rs for rs in req_sets):
                 dep.append((bid, blk))
         ok = bool(dep)
         results.append((v, ok, len(sites), len(live), dep))
